@@ -333,6 +333,7 @@ pub fn eval_api_inner(c: &ApiCase) -> Outcome {
         empty_metadata: c.alias,
         alias_builder: c.alias,
         reconfig: 0,
+        misalign: 0,
     };
     let mut ops = Vec::new();
     let mut prev = 0.0f64;
@@ -649,6 +650,16 @@ fn ev_c07_init(c: &crate::props::c07::InitCase) -> Outcome {
 fn ev_long(c: &crate::scenario::ValidCase) -> Outcome {
     panics_only("long_recordings", crate::props::c01::eval(c))
 }
+fn ev_limit(c: &crate::props::c16::LimitCase) -> Outcome {
+    panics_only("C16.four_gib_limit", crate::props::c16::eval_limit(c))
+}
+fn limit_cases(t: Tier) -> Vec<crate::props::c16::LimitCase> {
+    // the quick tier takes the fast-start case only (one ~9 GiB history); audio configured, offsets crossing 2^32
+    let mut v: Vec<_> = crate::props::c16::limit_cases(t).into_iter().filter(|c| t == Tier::Thorough || c.fast_start).collect();
+    // audio configured but never written, payload a few hundred bytes below the limit
+    v.push(crate::props::c16::LimitCase { fast_start: true, audio: true, below: 700 });
+    v
+}
 fn s_key_any(t: Tier) -> BoxedStrategy<crate::props::c07::KeyCase> {
     prop_oneof![crate::props::c07::s_h264(t), crate::props::c07::s_h265(t), crate::props::c07::s_av1(t), crate::props::c07::s_vp9(t)].boxed()
 }
@@ -681,6 +692,7 @@ pub fn def() -> PropertyDef {
             Box::new(PSub { name: "borrowed_c07_keyframes", quick: 12000, thorough: 400000, strat: s_key_any, eval: ev_c07_key }),
             Box::new(PSub { name: "borrowed_c07_init", quick: 6000, thorough: 150000, strat: crate::props::c07::s_init, eval: ev_c07_init }),
             Box::new(LSub { name: "long_recordings", cases: crate::scenario::long_cases_all, eval: ev_long, note: crate::scenario::LONG_NOTE }),
+            Box::new(LSub { name: "four_gib_limit", cases: limit_cases, eval: ev_limit, note: "C16's four_gib_limit cases (payload ending just below 2^32 bytes), judged for panics and overflow only" }),
         ],
     }
 }
